@@ -15,7 +15,13 @@ mod js;
 #[cfg(feature = "js")]
 pub use js::*;
 
+#[cfg(not(feature = "verif-hooks"))]
 pub use task::spawn;
+
+#[cfg(feature = "verif-hooks")]
+pub mod verif;
+#[cfg(feature = "verif-hooks")]
+pub use verif::spawn;
 
 /// Whether threads are available and working on this platform.
 pub async fn are_threads_available() -> bool {
